@@ -220,8 +220,15 @@ func execHsOn(c *hsConn, a []string) (string, string) {
 	if run.res == "panic" {
 		return out, "panic during session establishment"
 	}
-	return out, hsVerdict(o, run)
+	v := hsVerdict(o, run)
+	if hsAfter != nil {
+		hsAfter(run)
+	}
+	return out, v
 }
+
+// hsAfter, when set, is given the finished handshake (scenario hsm closes the session it established)
+var hsAfter func(run *hsRun)
 
 // setupPayload returns the RMCP+ setup payload of a session-less datagram with the given payload type, or nil
 func setupPayload(d []byte, ptype byte) []byte {
@@ -357,6 +364,20 @@ func genHs(g *genCtx) {
 	live := func(o hsOpts, force [3]int) (items []string) {
 		b := newSimBMC(o.bmcPass, o.bmcKG)
 		b.forceAlgs = force
+		// the values the BMC chooses: its session ID (also 0, 1, the extremes), its random number and GUID (also runs of
+		// 00 / FF bytes)
+		b.sidc = []uint32{0, 1, 0xffffffff, 0x80000000, 0x000000ff, g.rng.Uint32(), g.rng.Uint32(), g.rng.Uint32()}[g.rng.Intn(8)]
+		for i := range b.rc {
+			b.rc[i], b.guid[i] = byte(g.rng.Intn(256)), byte(g.rng.Intn(256))
+		}
+		switch g.rng.Intn(6) {
+		case 0:
+			b.rc = [16]byte{}
+		case 1:
+			for i := range b.guid {
+				b.guid[i] = 0xff
+			}
+		}
 		run := runHandshake(o, func(i int, p []byte) ([]byte, bool, bool) {
 			r := b.handle(p)
 			if r == nil {
